@@ -435,7 +435,9 @@ def py_aligned(ops):
             if w[1] == "hasReturnValue" or w[1] in DEFAULT_FIELDS:
                 if act is None or act != cur:
                     return False
-        elif w[0] not in ("E",):
+        elif w[0] == "T":
+            act = None          # teardown: the call objects of the body may be gone
+        elif w[0] not in ("E", "P"):
             return False
     return True
 
@@ -485,7 +487,33 @@ def gen_case(rng, size):
             s.control()
     if fault == "unexpected":
         s.actual(rng.choice(scopes), None)
+    # a fraction of the scenarios goes on in the TEARDOWN of the test, which the runner executes also after a failure ended
+    # the body: a second mock failure there must be reported the same way by both interfaces (the reporter records only
+    # the first failure of a test)
+    if rng.random() < (0.4 if fault else 0.1):
+        if rng.random() < 0.5:
+            s.finish()
+        return s.ops + teardown_ops(rng, scopes)
     return s.finish()
+
+
+def teardown_ops(rng, scopes):
+    ops = ["T"]
+    for _ in range(rng.choice([1, 2, 2])):
+        sc = rng.choice(scopes + [None])
+        ops.append("M0" if sc is None else "M " + hx(sc))
+        r = rng.random()
+        if r < 0.40:
+            ops.append("S actualCall " + hx(rng.choice([b"not_expected", b"foo", b"f"])))      # unexpected call
+        elif r < 0.70:
+            ops.append("S checkExpectations")                                                   # open expectations
+        elif r < 0.80:
+            ops.append("S expectedCallsLeft")
+        elif r < 0.90:
+            ops += ["S expectNoCall " + hx(b"g"), "S actualCall " + hx(b"g")]
+        else:
+            ops.append("S clear")
+    return ops
 
 
 # ---- deterministic sweep: every member of the three tables with every boundary value of its type
@@ -523,6 +551,12 @@ def sweep_cases():
         "S setDataObject 6f626a 4f626a o2", "S setDataConstObject 636f 4f626a o5", "S getData 6f626a", "S getData 636f",
         "S ignoreOtherCalls", "S actualCall 7a7a", "S disable", "S actualCall 7979", "S enable",
         "S checkExpectations", "S clear", "S removeAllComparatorsAndCopiers"]))
+    # a failure in the body followed by further mock failures in teardown (1 failure must be recorded, with the first text)
+    for first in [["S actualCall 6e6f"], ["S expectOneCall 66", "S checkExpectations"],
+                  ["S expectOneCall 66", "E withIntParameters 70 1", "S actualCall 66", "A withIntParameters 70 2"]]:
+        for td in [["S actualCall 7a"], ["S checkExpectations"], ["S expectOneCall 67", "S checkExpectations"],
+                   ["M 7331", "S actualCall 7a", "M0", "S actualCall 79"], ["S clear", "S actualCall 7a"]]:
+            out.append(("sweep", ["M0"] + first + ["T", "M0"] + td))
     # expectNCalls with boundary counts, expectedCallsLeft before / between / after the calls
     for n, made in [(0, 0), (0, 1), (1, 1), (2, 1), (2, 2), (3, 3), (4294967295, 2)]:
         ops = ["M0", "S expectNCalls %d 66" % n, "E withUnsignedIntParameters 70 4294967295", "S expectedCallsLeft"]
@@ -676,11 +710,15 @@ def observe(r, rep):
         w = l.split()
         if len(w) >= 4 and w[0] == ">" and w[1] == "c" and w[3] in ("S", "E", "A") and len(w) >= 5:
             rep.count("entry.%s.%s" % (w[3], w[4]))
+        elif len(w) == 4 and w[:2] == [">", "c"] and w[3] == "T":
+            rep.count("teardown.phase_executed")
         elif len(w) >= 5 and w[:2] == [">", "c"] and w[3:5] == ["P", "aligned"]:
             rep.count("class.Aligned_syntactic")
         elif w[:2] == ["co", "verdict"]:
             failed = w[2] != "0"
             rep.count("verdict.failed" if failed else "verdict.passed")
+            if w[2] not in ("0", "1"):
+                rep.count("verdict.more_than_one_failure")
         elif w[:2] == ["co", "val"]:
             rep.count("tag." + w[2])
         elif w[:2] == ["xo", "has"]:
